@@ -18,6 +18,7 @@ package main
 
 import (
 	"fmt"
+	"strings"
 	"go/constant"
 	"go/token"
 	"go/types"
@@ -481,13 +482,43 @@ func (w *Walker) fieldAlts(fr *Frame, sv ssa.Value, idx int, depth int) ([]const
 }
 
 // allocFieldAlts: what the load `at` of field idx (idx < 0: the whole value) of the local a
-// can observe: one alternative per store that reaches the load, under the facts of the store
-// and of not passing through a later one; the zero value when no store must have happened.
+// can observe: one alternative per write that reaches the load - a store, or a store made by
+// an irismod callee that was handed a's address - under the facts of the write and of not
+// passing through a later one; the zero value when no write must have happened.
 func (w *Walker) allocFieldAlts(fr *Frame, a *ssa.Alloc, idx int, at ssa.Instruction, depth int) ([]constAlt, bool) {
 	if depth > 12 || a.Referrers() == nil {
 		return nil, false
 	}
-	var fieldSt, wholeSt []*ssa.Store
+	type writer struct {
+		pos      ssa.Instruction // in a's function: the store, or the call that stores
+		whole    bool
+		definite bool // when pos executes (and succeeds) the field is overwritten
+		alts     func() ([]constAlt, bool)
+	}
+	var ws []writer
+	storeWriter := func(st *ssa.Store, whole bool) writer {
+		return writer{pos: st, whole: whole, definite: true, alts: func() ([]constAlt, bool) {
+			var as []constAlt
+			var ok bool
+			if whole && idx >= 0 {
+				as, ok = w.fieldAlts(fr, st.Val, idx, depth+1)
+			} else {
+				as, ok = w.constAlts(fr, st.Val, depth+1)
+			}
+			if !ok {
+				return nil, false
+			}
+			var out []constAlt
+			for _, base := range w.pathBases(fr, st) {
+				for _, al := range as {
+					if fs, feasible := mergeFacts(base, al.facts); feasible {
+						out = append(out, constAlt{fs, al.val})
+					}
+				}
+			}
+			return out, true
+		}}
+	}
 	for _, r := range *a.Referrers() {
 		switch y := r.(type) {
 		case *ssa.FieldAddr:
@@ -498,7 +529,7 @@ func (w *Walker) allocFieldAlts(fr *Frame, a *ssa.Alloc, idx int, at ssa.Instruc
 				switch z := r2.(type) {
 				case *ssa.Store:
 					if z.Addr == ssa.Value(y) && y.Field == idx {
-						fieldSt = append(fieldSt, z)
+						ws = append(ws, storeWriter(z, false))
 					}
 				case *ssa.UnOp, *ssa.FieldAddr:
 				default:
@@ -509,90 +540,184 @@ func (w *Walker) allocFieldAlts(fr *Frame, a *ssa.Alloc, idx int, at ssa.Instruc
 			}
 		case *ssa.Store:
 			if y.Addr == ssa.Value(a) {
-				wholeSt = append(wholeSt, y)
+				ws = append(ws, storeWriter(y, true))
 			} else {
 				return nil, false // the address itself is stored somewhere
 			}
 		case *ssa.UnOp, *ssa.DebugRef:
+		case *ssa.Call:
+			// handed by address to an irismod callee: the stores it makes through the pointer
+			if idx < 0 || y.Common().IsInvoke() {
+				return nil, false
+			}
+			g := y.Common().StaticCallee()
+			if g == nil || g.Blocks == nil || !isIrismodFunc(g) || onChain(fr, g) {
+				return nil, false
+			}
+			call := y
+			for i, arg := range y.Common().Args {
+				if arg != ssa.Value(a) {
+					continue
+				}
+				if i >= len(g.Params) || g.Params[i].Referrers() == nil {
+					return nil, false
+				}
+				var inner []*ssa.Store
+				for _, pr := range *g.Params[i].Referrers() {
+					switch q := pr.(type) {
+					case *ssa.FieldAddr:
+						if q.Referrers() == nil {
+							continue
+						}
+						for _, r2 := range *q.Referrers() {
+							switch z := r2.(type) {
+							case *ssa.Store:
+								if z.Addr == ssa.Value(q) && q.Field == idx {
+									inner = append(inner, z)
+								}
+							case *ssa.UnOp, *ssa.FieldAddr:
+							default:
+								if q.Field == idx {
+									return nil, false
+								}
+							}
+						}
+					case *ssa.UnOp, *ssa.DebugRef:
+					default:
+						return nil, false // the pointer is handed on or overwritten as a whole
+					}
+				}
+				if len(inner) == 0 {
+					continue // this callee leaves the field alone
+				}
+				// the caller goes on only when the callee succeeded?
+				succeeded := false
+				for _, cf := range callFacts(at.Block()) {
+					if cf.Call == call && cf.Outcome == "err==nil" {
+						succeeded = true
+					}
+				}
+				if !succeeded {
+					// … or the error is tested right after the call on the way to the load
+					for _, cf := range callFacts(at.Block()) {
+						_ = cf
+					}
+				}
+				// every successful run of the callee assigns the field (on each of its paths)
+				innerSet := map[ssa.Instruction]bool{}
+				for _, st := range inner {
+					innerSet[st] = true
+				}
+				definite := (succeeded || errorPropagated(call)) && mustPass(g, func(x ssa.Instruction) bool { return innerSet[x] })
+				nfr := &Frame{Fn: g, Parent: fr, Call: call, Depth: frameDepth(fr) + 1}
+				ws = append(ws, writer{pos: call, definite: definite, alts: func() ([]constAlt, bool) {
+					var out []constAlt
+					callBases := w.pathBases(fr, call)
+					for _, st := range inner {
+						as, ok := w.constAlts(nfr, st.Val, depth+1)
+						if !ok {
+							return nil, false
+						}
+						// not overwritten by a later store of the callee
+						var later [][]FactT
+						for _, o := range inner {
+							if o != st && instrReaches(st, o) && !instrReaches(o, st) {
+								if fs, ok := w.avoidFacts(nfr, o); ok {
+									later = append(later, fs)
+								}
+							}
+						}
+						for _, cb := range callBases {
+							for _, base := range w.pathBases(nfr, st) {
+								m, feasible := mergeFacts(cb, base)
+								for _, l := range later {
+									if feasible {
+										m, feasible = mergeFacts(m, factMap(l))
+									}
+								}
+								if !feasible {
+									continue
+								}
+								for _, al := range as {
+									if fs, ok := mergeFacts(m, al.facts); ok {
+										out = append(out, constAlt{fs, al.val})
+									}
+								}
+							}
+						}
+					}
+					return out, true
+				}})
+			}
 		case ssa.CallInstruction:
-			// passed by address: the callee may write it
 			return nil, false
 		default:
 			return nil, false
 		}
 	}
-	wholeSt, fieldSt = reachingStores(wholeSt, fieldSt, at)
-	type surv struct {
-		st    *ssa.Store
-		whole bool
+	// the writes the load can observe
+	var live []writer
+	for _, x := range ws {
+		if x.pos.Parent() == at.Parent() && instrReaches(x.pos, at) {
+			live = append(live, x)
+		}
 	}
-	var ss []surv
+	var ss []writer
 	must := false
-	for _, s := range wholeSt {
-		ss = append(ss, surv{s, true})
-		must = must || instrDominates(s, at)
-	}
-	for _, s := range fieldSt {
-		ss = append(ss, surv{s, false})
-		must = must || instrDominates(s, at)
-	}
-	// not passing through the store s2: the other arm of the test that leads to it
-	avoid := func(s2 *ssa.Store) ([]FactT, bool) {
-		b := s2.Block()
-		if len(b.Preds) != 1 {
-			return nil, false
+	for _, x := range live {
+		killed := false
+		for _, k := range live {
+			if k.pos == x.pos || !k.definite || !instrDominates(k.pos, at) {
+				continue
+			}
+			if instrReaches(x.pos, k.pos) && !instrReaches(k.pos, x.pos) {
+				killed = true
+			}
 		}
-		p := b.Preds[0]
-		ifi, ok := p.Instrs[len(p.Instrs)-1].(*ssa.If)
-		if !ok || len(p.Succs) != 2 || p.Succs[0] == p.Succs[1] {
-			return nil, false
+		if !killed {
+			ss = append(ss, x)
+			must = must || (x.definite && instrDominates(x.pos, at))
 		}
-		holds := p.Succs[0] != b
-		var fs []FactT
-		for _, f := range expandCond(ifi.Cond, holds, ifi) {
-			fs = append(fs, FactT{Text: w.ts.Of(f.Cond, fr).LooseString(), Holds: f.Holds})
-		}
-		return withEquivalents(fs), true
 	}
 	var out []constAlt
-	add := func(base map[string]FactT, self *ssa.Store, as []constAlt) {
+	add := func(self ssa.Instruction, as []constAlt) {
+		// not passing through a later write on the way to the load
+		extra := map[string]FactT{}
 		for _, o := range ss {
-			if o.st == self {
+			if o.pos == self || !o.definite {
 				continue
 			}
-			// a later store on the way to the load
-			if self != nil && !(instrReaches(self, o.st) && !instrReaches(o.st, self)) {
+			if self != nil && !(instrReaches(self, o.pos) && !instrReaches(o.pos, self)) {
 				continue
 			}
-			if fs, ok := avoid(o.st); ok {
-				if m, feasible := mergeFacts(base, factMap(fs)); feasible {
-					base = m
+			if fs, ok := w.avoidFacts(fr, o.pos); ok {
+				if m, feasible := mergeFacts(extra, factMap(fs)); feasible {
+					extra = m
 				}
 			}
 		}
 		for _, al := range as {
-			if fs, feasible := mergeFacts(base, al.facts); feasible {
+			if fs, feasible := mergeFacts(extra, al.facts); feasible {
 				out = append(out, constAlt{fs, al.val})
 			}
 		}
 	}
-	for _, s := range ss {
-		var as []constAlt
-		var ok bool
-		if s.whole && idx >= 0 {
-			as, ok = w.fieldAlts(fr, s.st.Val, idx, depth+1)
-		} else {
-			as, ok = w.constAlts(fr, s.st.Val, depth+1)
-		}
+	for _, x := range ss {
+		as, ok := x.alts()
 		if !ok {
 			return nil, false
 		}
-		for _, base := range w.pathBases(fr, s.st) {
-			add(base, s.st, as)
+		add(x.pos, as)
+		if len(out) > maxConstAlts {
+			return nil, false
 		}
 	}
 	if !must {
 		// zero-initialised local
+		hasWhole := false
+		for _, x := range ws {
+			hasWhole = hasWhole || x.whole
+		}
 		var t types.Type
 		if pt, ok := a.Type().Underlying().(*types.Pointer); ok {
 			t = pt.Elem()
@@ -607,13 +732,57 @@ func (w *Walker) allocFieldAlts(fr *Frame, a *ssa.Alloc, idx int, at ssa.Instruc
 		if t == nil || !isSmallConstType(t) {
 			return nil, false
 		}
-		z := constant.MakeInt64(0)
-		if isBoolType(t) {
-			z = constant.MakeBool(false)
+		// a non-definite writer (a callee that may leave the field alone) lets the previous
+		// value through: that is covered by the other survivors; the zero value is seen only
+		// when no whole-value store lies before
+		zeroSeen := true
+		for _, x := range ss {
+			if x.whole && instrDominates(x.pos, at) {
+				zeroSeen = false
+			}
 		}
-		add(map[string]FactT{}, nil, []constAlt{{facts: map[string]FactT{}, val: z}})
+		if zeroSeen {
+			z := constant.MakeInt64(0)
+			if isBoolType(t) {
+				z = constant.MakeBool(false)
+			}
+			add(nil, []constAlt{{facts: map[string]FactT{}, val: z}})
+		}
+	}
+	// the alternatives are seen on some path to the load each: the paths' own facts
+	if bases := w.pathBases(fr, at); len(bases) > 1 && len(bases)*len(out) <= maxConstAlts {
+		var next []constAlt
+		for _, b := range bases {
+			for _, al := range out {
+				if fs, feasible := mergeFacts(b, al.facts); feasible {
+					next = append(next, constAlt{fs, al.val})
+				}
+			}
+		}
+		if len(next) > 0 {
+			out = next
+		}
 	}
 	return out, len(out) > 0 && len(out) <= maxConstAlts
+}
+
+// avoidFacts: not passing through instruction x: the other arm of the test that leads to it.
+func (w *Walker) avoidFacts(fr *Frame, x ssa.Instruction) ([]FactT, bool) {
+	b := x.Block()
+	if len(b.Preds) != 1 {
+		return nil, false
+	}
+	p := b.Preds[0]
+	ifi, ok := p.Instrs[len(p.Instrs)-1].(*ssa.If)
+	if !ok || len(p.Succs) != 2 || p.Succs[0] == p.Succs[1] {
+		return nil, false
+	}
+	holds := p.Succs[0] != b
+	var fs []FactT
+	for _, f := range expandCond(ifi.Cond, holds, ifi) {
+		fs = append(fs, FactT{Text: w.ts.Of(f.Cond, fr).LooseString(), Holds: f.Holds})
+	}
+	return withEquivalents(fs), true
 }
 
 // condAltFactsJoint: what holds when all the given conditions have their stated values:
@@ -702,7 +871,7 @@ func (w *Walker) condAltFactsJoint(fr *Frame, conds []Fact) []FactT {
 // reached with a, or with ¬a ∧ b); the dominating facts otherwise.
 func (w *Walker) pathBases(fr *Frame, at ssa.Instruction) []map[string]FactT {
 	dom := factMap(w.blockFacts(fr, at.Block(), 4))
-	envs, complete := pathAssignments(fr.Fn, at, func(v ssa.Value) string { return w.ts.Of(v, fr).LooseString() })
+	envs, atomVal, complete := pathAssignmentsV(fr.Fn, at, func(v ssa.Value) string { return w.ts.Of(v, fr).LooseString() })
 	if !complete || len(envs) < 2 || len(envs) > 8 {
 		return []map[string]FactT{dom}
 	}
@@ -711,6 +880,12 @@ func (w *Walker) pathBases(fr *Frame, at ssa.Instruction) []map[string]FactT {
 		var fs []FactT
 		for k, v := range e {
 			fs = append(fs, FactT{Text: k, Holds: v})
+			// a test made by a boolean helper: what its outcome implies
+			if av, ok := atomVal[k]; ok {
+				if _, isCall := av.(*ssa.Call); isCall {
+					fs = append(fs, w.boolValueFacts(fr, av, v, 2)...)
+				}
+			}
 		}
 		m, feasible := mergeFacts(dom, factMap(withEquivalents(fs)))
 		if feasible {
@@ -721,4 +896,437 @@ func (w *Walker) pathBases(fr *Frame, at ssa.Instruction) []map[string]FactT {
 		return []map[string]FactT{dom}
 	}
 	return out
+}
+
+// coExecutedByFacts: the two events run together on every successful path although they are
+// guarded by different tests, because the tests agree under the facts of the other event:
+//
+//	switch h.Direction { case Outgoing: outgoing -= coin … }      // a
+//	settle(newSettlement(h, sender))                               // b inside, under s.payout == release
+//
+// b's guards are computed values (a plan record); with the facts that hold where a executes
+// every alternative of each guard has the value the path to b needs, and conversely. With the
+// guards so decided, the sites must be mutually must in the common frame and must below it.
+func coExecutedByFacts(w *Walker, a, b *Event) bool { return relatedByFacts(w, a, b, "both") }
+
+// impliedByFacts: whenever a executes (on a successful path) b executes as well - b may also
+// execute without a (a payout shared by several routes).
+func impliedByFacts(w *Walker, a, b *Event) bool { return relatedByFacts(w, a, b, "a-implies-b") }
+
+// excludedByFacts: where a executes b cannot: one of b's guards has, under a's facts, only
+// alternatives with the value that leads away from b.
+func excludedByFacts(w *Walker, a, b *Event) bool { return relatedByFacts(w, a, b, "a-excludes-b") }
+
+func relatedByFacts(w *Walker, a, b *Event, mode string) bool {
+	chain := func(e *Event) []*Frame {
+		var c []*Frame
+		for f := e.Fr; f != nil; f = f.Parent {
+			c = append([]*Frame{f}, c...)
+		}
+		return c
+	}
+	ca, cb := chain(a), chain(b)
+	i := 0
+	for i < len(ca) && i < len(cb) && ca[i] == cb[i] {
+		i++
+	}
+	if i == 0 {
+		return false
+	}
+	sa, sb := siteOf(ca, i, a), siteOf(cb, i, b)
+	if sa == nil || sb == nil || sa.Parent() != sb.Parent() {
+		return false
+	}
+	fa, fb := factMap(w.FactsAt(a.Fr, a.Site)), factMap(w.FactsAt(b.Fr, b.Site))
+	forced := map[ssa.Value]bool{}
+	// the guards of e's sites, from the common frame down, decided by the other event's facts
+	decide := func(c []*Frame, e *Event, other map[string]FactT) bool {
+		for j := i - 1; j < len(c); j++ {
+			var s ssa.Instruction
+			if j+1 < len(c) {
+				s = siteOf(c, j+1, e)
+			} else {
+				s = e.Site
+			}
+			if s == nil || s.Parent() != c[j].Fn {
+				return false
+			}
+			for _, df := range dominatingFacts(s.Block()) {
+				// a test whose other arm only fails: success paths all take this arm
+				if df.If != nil && len(df.If.Block().Succs) == 2 {
+					ib := df.If.Block()
+					takes := 0
+					for _, f0 := range expandCond(df.If.Cond, true, df.If) {
+						if f0.Holds != df.Holds {
+							takes = 1
+						}
+					}
+					if onlyFailureExits(ib.Succs[1-takes], ib) {
+						continue
+					}
+				}
+				if old, dup := forced[df.Cond]; dup {
+					if old != df.Holds {
+						return false
+					}
+					continue
+				}
+				as, ok := w.constAlts(c[j], df.Cond, 0)
+				if !ok {
+					t := FactT{Text: w.ts.Of(df.Cond, c[j]).LooseString(), Holds: df.Holds}
+					if _, has := other[t.String()]; !has {
+						if os.Getenv("DEBUG_COEX") != "" {
+							fmt.Fprintf(os.Stderr, "   guard %s in %s: no alternatives and fact %s not among the other's\n", df.Cond, c[j].Fn.Name(), trunc(t.String(), 300))
+						}
+						return false
+					}
+					forced[df.Cond] = df.Holds
+					continue
+				}
+				good := 0
+				for _, al := range as {
+					if _, feasible := mergeFacts(other, al.facts); !feasible {
+						continue
+					}
+					if al.val.Kind() != constant.Bool || constant.BoolVal(al.val) != df.Holds {
+						if os.Getenv("DEBUG_COEX") != "" {
+							fmt.Fprintf(os.Stderr, "   guard %s in %s needs %v but alt %s feasible: %s\n", df.Cond, c[j].Fn.Name(), df.Holds, al.val, trunc(fmt.Sprint(sortedKeys(al.facts)), 900))
+						}
+						return false
+					}
+					good++
+				}
+				if good == 0 {
+					return false
+				}
+				forced[df.Cond] = df.Holds
+			}
+		}
+		return true
+	}
+	if mode == "a-excludes-b" {
+		// with a's own guards as they are, and the tests that a's facts decide, one of b's
+		// sites is not reachable in its function
+		own := map[ssa.Value]bool{}
+		for j := i - 1; j < len(ca); j++ {
+			var st ssa.Instruction
+			if j+1 < len(ca) {
+				st = siteOf(ca, j+1, a)
+			} else {
+				st = a.Site
+			}
+			if st == nil || st.Parent() != ca[j].Fn {
+				break
+			}
+			for _, df := range dominatingFacts(st.Block()) {
+				own[df.Cond] = df.Holds
+			}
+		}
+		for j := i - 1; j < len(cb); j++ {
+			var st ssa.Instruction
+			if j+1 < len(cb) {
+				st = siteOf(cb, j+1, b)
+			} else {
+				st = b.Site
+			}
+			if st == nil || st.Parent() != cb[j].Fn {
+				break
+			}
+			dec := map[ssa.Value]bool{}
+			for k, v := range own {
+				dec[k] = v
+			}
+			for _, blk := range cb[j].Fn.Blocks {
+				ifi, ok := blk.Instrs[len(blk.Instrs)-1].(*ssa.If)
+				if !ok {
+					continue
+				}
+				for _, f0 := range expandCond(ifi.Cond, true, ifi) {
+					if _, dup := dec[f0.Cond]; dup || !involvesEnumHelper(f0.Cond, 0) {
+						continue
+					}
+					as, ok := w.constAlts(cb[j], f0.Cond, 0)
+					if !ok {
+						continue
+					}
+					n, t := 0, 0
+					for _, al := range as {
+						if _, feasible := mergeFacts(fa, al.facts); !feasible || al.val.Kind() != constant.Bool {
+							continue
+						}
+						n++
+						if constant.BoolVal(al.val) {
+							t++
+						}
+					}
+					if n > 0 && (t == n || t == 0) {
+						dec[f0.Cond] = t == n
+					}
+				}
+			}
+			// reachability of st's block under the decided tests
+			seen := map[*ssa.BasicBlock]bool{}
+			q := []*ssa.BasicBlock{cb[j].Fn.Blocks[0]}
+			for len(q) > 0 {
+				x := q[0]
+				q = q[1:]
+				if seen[x] {
+					continue
+				}
+				seen[x] = true
+				feas := []bool{true, true}
+				if ifi, ok := x.Instrs[len(x.Instrs)-1].(*ssa.If); ok && len(x.Succs) == 2 {
+					for _, f0 := range expandCond(ifi.Cond, true, ifi) {
+						if v, has := dec[f0.Cond]; has {
+							tv := v == f0.Holds // the value of the If condition itself
+							feas[0], feas[1] = tv, !tv
+						}
+					}
+				}
+				for k, sc := range x.Succs {
+					if k < 2 && !feas[k] {
+						continue
+					}
+					q = append(q, sc)
+				}
+			}
+			if !seen[st.Block()] {
+				return true
+			}
+		}
+		// some guard of b is decided the other way by a's facts
+		for j := i - 1; j < len(cb); j++ {
+			var st ssa.Instruction
+			if j+1 < len(cb) {
+				st = siteOf(cb, j+1, b)
+			} else {
+				st = b.Site
+			}
+			if st == nil || st.Parent() != cb[j].Fn {
+				return false
+			}
+			for _, df := range dominatingFacts(st.Block()) {
+				as, ok := w.constAlts(cb[j], df.Cond, 0)
+				if !ok {
+					t := FactT{Text: w.ts.Of(df.Cond, cb[j]).LooseString(), Holds: !df.Holds}
+					if _, has := fa[t.String()]; has {
+						return true
+					}
+					continue
+				}
+				n, against := 0, 0
+				for _, al := range as {
+					if _, feasible := mergeFacts(fa, al.facts); !feasible {
+						continue
+					}
+					n++
+					if al.val.Kind() == constant.Bool && constant.BoolVal(al.val) != df.Holds {
+						against++
+					}
+				}
+				if n > 0 && against == n {
+					return true
+				}
+			}
+		}
+		return false
+	}
+	var da bool
+	if mode == "a-implies-b" {
+		// a executes: its own guards hold, whatever b's facts say
+		da = true
+		for j := i - 1; j < len(ca); j++ {
+			var st ssa.Instruction
+			if j+1 < len(ca) {
+				st = siteOf(ca, j+1, a)
+			} else {
+				st = a.Site
+			}
+			if st == nil || st.Parent() != ca[j].Fn {
+				return false
+			}
+			for _, df := range dominatingFacts(st.Block()) {
+				if old, dup := forced[df.Cond]; dup && old != df.Holds {
+					return false
+				}
+				forced[df.Cond] = df.Holds
+			}
+		}
+	} else {
+		da = decide(ca, a, fb)
+	}
+	// every other test in the functions below the common frame that the other event's facts
+	// decide (a switch arm that falls through into the site's block does not dominate it)
+	sweep := func(c []*Frame, other map[string]FactT) {
+		for j := i; j < len(c); j++ {
+			if len(c[j].Fn.Blocks) > 40 {
+				continue
+			}
+			for _, blk := range c[j].Fn.Blocks {
+				ifi, ok := blk.Instrs[len(blk.Instrs)-1].(*ssa.If)
+				if !ok {
+					continue
+				}
+				for _, f0 := range expandCond(ifi.Cond, true, ifi) {
+					if _, dup := forced[f0.Cond]; dup || !involvesEnumHelper(f0.Cond, 0) {
+						continue
+					}
+					as, ok := w.constAlts(c[j], f0.Cond, 0)
+					if !ok {
+						continue
+					}
+					n, t := 0, 0
+					for _, al := range as {
+						if _, feasible := mergeFacts(other, al.facts); !feasible || al.val.Kind() != constant.Bool {
+							continue
+						}
+						n++
+						if constant.BoolVal(al.val) {
+							t++
+						}
+					}
+					if n > 0 && (t == n || t == 0) {
+						forced[f0.Cond] = t == n
+					} else if os.Getenv("DEBUG_COEX") != "" {
+						fmt.Fprintf(os.Stderr, "      sweep: %s in %s undecided (%d of %d true)\n", f0.Cond, c[j].Fn.Name(), t, n)
+						for _, al := range as {
+							_, feasible := mergeFacts(other, al.facts)
+							var ks []string
+							for _, k := range sortedKeys(al.facts) {
+								if strings.Contains(k, "Direction") || strings.Contains(k, "Transfer") {
+									ks = append(ks, k)
+								}
+							}
+							fmt.Fprintf(os.Stderr, "         alt %s feasible=%v %v\n", al.val, feasible, ks)
+						}
+					}
+				}
+			}
+		}
+	}
+	db := decide(cb, b, fa)
+	if db {
+		sweep(cb, fa)
+	}
+	if da && mode == "both" {
+		sweep(ca, fb)
+	}
+	if os.Getenv("DEBUG_COEX") != "" {
+		fmt.Fprintf(os.Stderr, "coExecutedByFacts %s@%s / %s@%s: decide a=%v b=%v forced=%d\n", a.Kind, a.Fr.Fn.Name(), b.Kind, b.Fr.Fn.Name(), da, db, len(forced))
+	}
+	if !da || !db {
+		return false
+	}
+	old := edgeFeasible
+	edgeFeasible = func(blk *ssa.BasicBlock, succ int) bool {
+		if ifi, ok := blk.Instrs[len(blk.Instrs)-1].(*ssa.If); ok {
+			for _, f := range expandCond(ifi.Cond, true, ifi) {
+				if v, has := forced[f.Cond]; has {
+					// f.Holds tells whether the true edge means Cond or ¬Cond
+					trueEdgeMeans := f.Holds
+					return (succ == 0) == (v == trueEdgeMeans)
+				}
+			}
+		}
+		if old != nil {
+			return old(blk, succ)
+		}
+		return true
+	}
+	defer func() { edgeFeasible = old }()
+	// (with the guards decided, both sites lie on every remaining path to a success exit)
+	m1, m2, m3 := mustBelow(ca, i, a), mustBelow(cb, i, b), mutualMust(sa, sb) || (siteMust(sa) && siteMust(sb))
+	if mode == "a-implies-b" {
+		// only b has to be certain once a's guards hold
+		m1, m3 = true, siteMust(sb)
+	}
+	if os.Getenv("DEBUG_COEX") != "" {
+		fmt.Fprintf(os.Stderr, "   mustBelow a=%v b=%v mutual=%v\n", m1, m2, m3)
+		for c, v := range forced {
+			fn := ""
+			if in, ok := c.(ssa.Instruction); ok {
+				fn = in.Parent().Name()
+			}
+			fmt.Fprintf(os.Stderr, "      forced %s [%s] = %v\n", c, fn, v)
+		}
+		fmt.Fprintf(os.Stderr, "      siteMust(b.Site)=%v errProp=%v\n", siteMust(b.Site), errorPropagated(entrySite(cb[len(cb)-1])))
+	}
+	return m1 && m2 && m3
+}
+
+// mustPassPerKind: the function of frame fr tests one computed value X against constants
+// (a switch over a kind worked out up the chain). For every value X can have on this chain
+// the tests are decided accordingly and every path to a success exit must pass pred.
+func (w *Walker) mustPassPerKind(fr *Frame, pred func(ssa.Instruction) bool) bool {
+	type test struct {
+		cond ssa.Value
+		c    constant.Value
+		neq  bool
+	}
+	var scrut ssa.Value
+	var tests []test
+	for _, blk := range fr.Fn.Blocks {
+		ifi, ok := blk.Instrs[len(blk.Instrs)-1].(*ssa.If)
+		if !ok {
+			continue
+		}
+		for _, f0 := range expandCond(ifi.Cond, true, ifi) {
+			bo, ok := f0.Cond.(*ssa.BinOp)
+			if !ok || (bo.Op != token.EQL && bo.Op != token.NEQ) || !involvesEnumHelper(bo, 0) {
+				continue
+			}
+			x, y := bo.X, bo.Y
+			if _, isC := x.(*ssa.Const); isC {
+				x, y = y, x
+			}
+			c, isC := y.(*ssa.Const)
+			if !isC || c.Value == nil {
+				continue
+			}
+			if scrut != nil && scrut != x {
+				return false // more than one computed value is tested: not handled
+			}
+			scrut = x
+			tests = append(tests, test{f0.Cond, c.Value, bo.Op == token.NEQ})
+		}
+	}
+	if scrut == nil {
+		return false
+	}
+	as, ok := w.constAlts(fr, scrut, 0)
+	if !ok || len(as) == 0 {
+		return false
+	}
+	vals := map[string]constant.Value{}
+	for _, al := range as {
+		vals[al.val.ExactString()] = al.val
+	}
+	old := edgeFeasible
+	defer func() { edgeFeasible = old }()
+	for _, v := range vals {
+		forced := map[ssa.Value]bool{}
+		for _, t := range tests {
+			if v.Kind() != t.c.Kind() {
+				return false
+			}
+			forced[t.cond] = constant.Compare(v, token.EQL, t.c) != t.neq
+		}
+		edgeFeasible = func(blk *ssa.BasicBlock, succ int) bool {
+			if ifi, ok := blk.Instrs[len(blk.Instrs)-1].(*ssa.If); ok {
+				for _, f := range expandCond(ifi.Cond, true, ifi) {
+					if fv, has := forced[f.Cond]; has {
+						return (succ == 0) == (fv == f.Holds)
+					}
+				}
+			}
+			if old != nil {
+				return old(blk, succ)
+			}
+			return true
+		}
+		if !mustPass(fr.Fn, pred) {
+			return false
+		}
+	}
+	return true
 }
